@@ -104,6 +104,14 @@ function runJob (job) {
       if (step.op === 'rewrite' || step.op === 'rewrite_fault') {
         const text = job.texts[step.version]
         faultSet = step.op === 'rewrite_fault'
+        // (the store of the rewritten files' maps is a plain Map: its write for this file fails too)
+        const mapSet = Map.prototype.set
+        if (faultSet) {
+          Map.prototype.set = function (k, v) {
+            if (k === step.file) throw new Error('HARNESS: the store refuses the write')
+            return mapSet.call(this, k, v)
+          }
+        }
         try {
           const res = rewriter.rewrite(text, step.file)
           ev.status = String(res && res.metrics && res.metrics.status)
@@ -129,6 +137,7 @@ function runJob (job) {
           ev.status = 'error'
         } finally {
           faultSet = false
+          Map.prototype.set = mapSet
         }
       } else if (step.op === 'throw') {
         // run the text in use under the package's prepareStackTrace, both paths
